@@ -585,6 +585,10 @@ class DiscretizedSpace(TensorSpace):
             use_uniform = False
             nodes_on_bdry = None
 
+        if not isinstance(self.weighting, ConstWeighting):
+            # The factory repr can only express constant weightings
+            use_uniform = False
+
         if use_uniform:
             ctor = 'uniform_discr'
             if self.ndim == 1:
